@@ -103,6 +103,20 @@ def run_case(case):
 				problems.append(f'metadata differs: {loaded.meta} vs {m}')
 			if np.dtype(loaded.dtype) != dt:
 				problems.append('dtype differs')
+			if case.get('meta'):
+				# falsy-but-present metadata values are values, not "absent" (added after seeded change C12_agent9)
+				fields = ('id', 'name', 'version', 'id_attr', 'description')
+				variants = [dict.fromkeys(fields, '')] + [{f: ''} for f in fields] + [{'id': '0', 'name': ' ', 'description': '\n'},
+					{'extra': {'': '', 'a': [], 'b': 0, 'c': False, 'd': None, 'e': {}}}, {'id': '', 'extra': {}}]
+				tiny = SignatureArray([np.array([1, 2], dtype='u2')], ks)
+				for v in variants:
+					fm = SignaturesMeta(**v)
+					p2 = str(p) + '.falsy.h5'
+					dump_signatures(p2, AnnotatedSignatures(tiny, ['x'], fm))
+					with load_signatures(p2) as l2:
+						if l2.meta != fm:
+							problems.append(f'metadata with falsy values differs: {l2.meta!r} vs {fm!r}')
+					os.remove(p2)
 			for i in range(n):
 				if not (np.array_equal(loaded[i], sigs[i]) and loaded[i].dtype == dt):
 					problems.append(f'signature {i} differs')
